@@ -39,6 +39,16 @@ ASSUMPTIONS = [
     "non-replacement methods: both classes have at least one score (property quantifier)",
 ]
 
+
+def _ties():
+    from harness.translate import sampling_tr
+    return [{"name": "scores._sampling_method", "translate": sampling_tr.translate_sampling_method,
+             "gen_file": "Gen_sampling_method.v", "tie_file": "Tie_sampling_method.v"}]
+
+
+TIES = _ties()
+
+
 TOL = "(Qmake 1 1000000000000)"
 METHODS = {"replacement": "MReplacement", "single_pass": "MSinglePass", "dynamic": "MDynamic",
            "proportion": "MProportion", "bogus": "MOtherString", "invalid": "MInvalid",
